@@ -335,6 +335,26 @@ fn cli_options(ctx: &mut Ctx) {
             );
         }
     }
+    // the process working directory has been removed (a build directory deleted under a shell
+    // that still sits in it): every mode reports an error or works with absolute inputs, no abort
+    let abs_input = root.join("a.txt.txtpp").display().to_string();
+    for sub in [vec!["-q"], vec!["-q", "-N"], vec!["verify", "-q"], vec!["clean", "-q"], vec!["-q", abs_input.as_str()], vec!["clean", "-q", abs_input.as_str()]] {
+        let gone = root.join("gone-cwd");
+        let _ = std::fs::create_dir_all(&gone);
+        let script = format!("cd '{}' && rmdir '{}' && exec '{}' {}", gone.display(), gone.display(), crate::run::cli_bin().display(), sub.iter().map(|x| format!("'{x}'")).collect::<Vec<_>>().join(" "));
+        let out = std::process::Command::new("timeout").args(["30", "sh", "-c", &script]).env_remove("TXTPP_FILE").env_remove("RUST_LOG").env("RUST_BACKTRACE", "0").output();
+        ctx.evals += 1;
+        ctx.count("cli_runs_in_a_removed_working_directory", 1);
+        ctx.distinct.insert(crate::util::hash_str(&format!("gonecwd{sub:?}")));
+        if let Ok(o) = out {
+            let code = o.status.code();
+            if code == Some(124) {
+                ctx.violation("C18:hang:build", format!("txtpp {sub:?} started in a removed working directory did not end within 30 s"), json!({"kind": "cli"}));
+            } else if !matches!(code, Some(0) | Some(1) | Some(2)) {
+                ctx.violation("C18:cli:abnormal-exit:other", format!("txtpp {sub:?} started in a removed working directory ended with {:?}: {}", code, String::from_utf8_lossy(&o.stderr).lines().take(3).collect::<Vec<_>>().join(" | ")), json!({"kind": "cli"}));
+            }
+        }
+    }
     ctx.scratch.discard(&root);
 }
 
@@ -398,6 +418,13 @@ fn run(ctx: &mut Ctx) {
         cli_options(ctx);
     }
     heavy_commands(ctx);
+    if ctx.claim(7_500_000) || ctx.claim(7_500_001) {
+        // file and directory names that are not valid UTF-8: no panic, no hang in any mode
+        let (findings, cj) = crate::props::rawnames::scenario(ctx, &mut r);
+        for f in findings.iter().filter(|f| ["PANIC", "DEADLOCK", "HANG", "STUCK", "LIVELOCK"].iter().any(|w| f.msg.contains(w))) {
+            ctx.violation(format!("C18:{}:{}", if f.msg.contains("PANIC") { "panic:main" } else { "hang" }, f.mode), format!("sources with names that are not valid UTF-8: {}", f.msg), cj.clone());
+        }
+    }
     let n = ctx.tier.pick(6000, 150_000);
     for i in 0..n {
         if !ctx.time_left() || ctx.violations.len() > 30 {
@@ -414,6 +441,14 @@ fn run(ctx: &mut Ctx) {
 fn replay(ctx: &mut Ctx, v: &Value) {
     if v["kind"].as_str() == Some("cli") {
         cli_options(ctx);
+        return;
+    }
+    if v["kind"].as_str() == Some("raw-names") {
+        let mut r = StdRng::seed_from_u64(3);
+        let (findings, cj) = crate::props::rawnames::scenario(ctx, &mut r);
+        for f in findings.iter().filter(|f| ["PANIC", "DEADLOCK", "HANG", "STUCK", "LIVELOCK"].iter().any(|w| f.msg.contains(w))) {
+            ctx.violation(format!("C18:{}:{}", if f.msg.contains("PANIC") { "panic:main" } else { "hang" }, f.mode), f.msg.clone(), cj.clone());
+        }
         return;
     }
     if v["kind"].as_str() == Some("heavy-command") {
